@@ -7,7 +7,8 @@ Local Open Scope Z_scope.
 Inductive case :=
 | Port (text : string) (impl : option Z)              (* HealthPort / MpcConfig.Port, file or env loader *)
 | Dur (text : string) (impl : option Z)               (* a duration field; impl in nanoseconds *)
-(* NewEVMConfig / NewSubstrateConfig / NewBtcConfig and the first start-block computation; [after] = what
+(* NewEVMConfig / NewSubstrateConfig / NewBtcConfig (the written chain id, interval, confirmations, start
+   block; what the constructed config holds) and the first start-block computation; [after] = what
    the config object holds after it was USED as the application uses it (interval pointer handed to
    chains.CalculateStartingBlock repeatedly, String()), compared field by field and by value with a
    snapshot taken right after loading, and the results of the later start-block computations *)
@@ -54,7 +55,7 @@ Definition calc_eqb (a b : calc) : bool :=
 Definition chain_obs_eqb (a b : chain_obs) : bool :=
   match a, b with
   | Some (c1, r1), Some (c2, r2) =>
-      (cc_interval c1 =? cc_interval c2) && (cc_confs c1 =? cc_confs c2)
+      (cc_id c1 =? cc_id c2) && (cc_interval c1 =? cc_interval c2) && (cc_confs c1 =? cc_confs c2)
       && (cc_start c1 =? cc_start c2) && calc_eqb r1 r2
   | None, None => true
   | _, _ => false
